@@ -57,9 +57,12 @@ def oracle_ctl(ctx, ops, impl):
     clients = []
     n_replies = 0
     pending_respell = None
+    hist = []
     for op, im in zip(ops, impl):
         t = op.split()
+        hist.append(op + "  =>  " + im)
         if t[:2] == ["C", "reset"]:
+            hist = [op]
             clients = []
             for tok in t[3:]:
                 f = tok.split(":")
@@ -73,6 +76,10 @@ def oracle_ctl(ctx, ops, impl):
                 ctx.report(f"cache entry re-packed with spelling {pending_respell}, which is not the spelling of the request at hand",
                            {"op": op, "impl": im, "clients": clients})
             pending_respell = None
+        if t[:2] == ["C", "udppath"]:
+            ctx.report(f"UDP packet-send path: a coalesced client got a reply that is not its own ({' '.join(t[2:])}, got {im})",
+                       {"op": op, "impl": im})
+            continue
         if t[:2] == ["C", "errreply"]:
             ctx.report(f"error reply built by the controller does not carry the client's id/question: want {t[3]} got {im}",
                        {"op": op, "impl": im})
@@ -85,10 +92,10 @@ def oracle_ctl(ctx, ops, impl):
             qq = q.split(".")
             if rid != c["id"]:
                 ctx.report(f"reply to client {t[2]} carries id {rid}, the client asked with id {c['id']}",
-                           {"op": op, "impl": im, "clients": clients})
+                           {"op": op, "impl": im, "clients": clients, "history": list(hist)})
             elif q == "-" or len(qq) != 3 or int(qq[0]) != c["n"] or int(qq[2]) != c["qt"]:
                 ctx.report(f"reply to client {t[2]} carries question {q}, the client asked {c['n']}.{c['sp']}.{c['qt']}",
-                           {"op": op, "impl": im, "clients": clients})
+                           {"op": op, "impl": im, "clients": clients, "history": list(hist)})
         if "written-" in im or "nothing-written" in im:
             ctx.report(f"client {t[2] if len(t) > 2 else '?'}: {im}", {"op": op, "impl": im})
         mc = re.search(r"cache=(\S+)", im)
